@@ -1,1 +1,4 @@
 pub mod fsm;
+pub mod layout;
+pub mod model;
+pub mod scratchpad;
